@@ -83,7 +83,7 @@ func (req *TimeStampReq) SanityCheckToken(psd *pkcs7.ContentInfoSignedData) erro
 	if err != nil {
 		return err
 	}
-	if req.Nonce.Cmp(info.Nonce) != 0 {
+	if req.Nonce != nil && (info.Nonce == nil || req.Nonce.Cmp(info.Nonce) != 0) {
 		return errors.New("request nonce mismatch")
 	}
 	if !hmac.Equal(info.MessageImprint.HashedMessage, req.MessageImprint.HashedMessage) {
